@@ -1,2 +1,3 @@
 //! Shared helpers for the verification harness binaries.
 pub mod eval;
+pub mod c14;
